@@ -1,0 +1,58 @@
+//go:build verif
+
+package dkg
+
+import (
+	beaconchain "github.com/keep-network/keep-core/pkg/beacon/chain"
+	"github.com/keep-network/keep-core/pkg/beacon/event"
+	"github.com/keep-network/keep-core/pkg/beacon/gjkr"
+	"github.com/keep-network/keep-core/pkg/chain"
+	"github.com/keep-network/keep-core/pkg/protocol/group"
+)
+
+// Thin exports for the out-of-tree verification harness (property C05). No behaviour of
+// their own.
+
+func VerifDecideMemberFate(
+	playerIndex group.MemberIndex,
+	gjkrResult *gjkr.Result,
+	dkgResultChannel chan *event.DKGResultSubmission,
+	startPublicationBlockHeight uint64,
+	beaconChain beaconchain.Interface,
+	blockCounter chain.BlockCounter,
+) ([]group.MemberIndex, error) {
+	return decideMemberFate(
+		playerIndex,
+		gjkrResult,
+		dkgResultChannel,
+		startPublicationBlockHeight,
+		beaconChain,
+		blockCounter,
+	)
+}
+
+func VerifWaitForDkgResultEvent(
+	dkgResultChannel chan *event.DKGResultSubmission,
+	startPublicationBlockHeight uint64,
+	beaconChain beaconchain.Interface,
+	blockCounter chain.BlockCounter,
+) (*event.DKGResultSubmission, error) {
+	return waitForDkgResultEvent(
+		dkgResultChannel,
+		startPublicationBlockHeight,
+		beaconChain,
+		blockCounter,
+	)
+}
+
+func VerifResolveGroupOperators(
+	selectedOperators []chain.Address,
+	operatingGroupMembersIDs []group.MemberIndex,
+	beaconConfig *beaconchain.Config,
+) ([]chain.Address, error) {
+	return resolveGroupOperators(
+		selectedOperators,
+		operatingGroupMembersIDs,
+		beaconConfig,
+	)
+}
